@@ -21,11 +21,18 @@ from mro import (call, pipeline, program, ref, split, stage, const, echo)
 
 
 def key_programs():
-    P = [p for p in shapes.catalogue(big=True) if p["name"].startswith(("keys_", "nest_")) or p["name"] in ("map_keys", "map_dyn2")]
+    P = [p for p in shapes.catalogue(big=True) if p["name"].startswith(("keys_", "nest_", "map_nested_noret")) or p["name"] in ("map_keys", "map_dyn2")]
     sets = {"keys_mixed": ["a", "a.b", "a/b", "%2E", "..", "é", " "],
             "keys_forklike": ["fork0", "fork_a", "u0123456789", "chnk1", "1", "01"],
             "keys_prefix": ["x", "x_x", "x%5Fx", "x.x"],
-            "keys_empty": [""]}
+            "keys_empty": [""],
+            # long keys that agree in their first hundred characters and in their length (a name
+            # that is abbreviated must stay distinct), also with characters that grow when escaped
+            "keys_long": ["k" * 100 + "a" * 10, "k" * 100 + "b" * 10, "k" * 100 + "a" * 9 + "b", "k" * 109],
+            "keys_long_esc": ["\u00e9" * 12 + "x", "\u00e9" * 12 + "y", "." * 22 + "a", "." * 22 + "b", "%" * 24],
+            # a key whose directory name is legal (185 bytes) but whose journal names, escaped once
+            # more, exceed the 255 bytes of a file name
+            "keys_toolong": ["\u00e9" * 30 + "x", "ok"]}
     for nm, keys in sets.items():
         P.append(program(nm, [], [stage("G", "", "map<int> m", {"m": const({k: i + 1 for i, k in enumerate(keys)})}),
                                   stage("A", "int x", "int y", {"y": echo("x")})],
